@@ -7,3 +7,11 @@ mod tasks;
 pub use event::{Event, ProcessorError, ProcessorStatus};
 pub(crate) use pipeline::Pipeline;
 pub(crate) use tasks::TaskTracker;
+
+/// Verification hooks (only compiled with `--cfg p2panda_p2panda_verif`).
+#[cfg(p2panda_p2panda_verif)]
+#[doc(hidden)]
+pub mod verif {
+    pub use super::pipeline::Pipeline;
+    pub use super::tasks::{Task, TaskTracker};
+}
